@@ -42,6 +42,7 @@ THEOREMS = [
     "SleapVerif.C07.global_refine_symmetric_fixed",
     "SleapVerif.C07.global_refine_toward_centre",
     "SleapVerif.C07.global_refine_toward_centre_strict",
+    "SleapVerif.C07.global_refine_toward_centre_border_counterexample",
 ]
 
 THRS = [(0.2, Fraction(1, 5)), (0.1, Fraction(1, 10)), (0.0, Fraction(0)), (0.5, Fraction(1, 2)), (1.0, Fraction(1)),
@@ -388,38 +389,60 @@ def run_case(chk, I, case, mline, f07_known):
             one = {"S": 1, "C": 1, "h": h, "w": w, "den": case["den"], "maps": [case["maps"][k]], "thr": thr, "p": p, "dtype": dtype}
             chk.fail(f"C07 fails on find_global_peaks(integral, p={p}): {why}", one, list(f), sigs)
 
-    # ---- Gaussian bumps: symmetric-unmoved / toward-centre (property, inside patches) + error reduction (test)
+    # ---- Gaussian bumps: symmetric-unmoved / toward-centre / no-overshoot
     for k, t in enumerate(case.get("truth", [])):
         s, c = divmod(k, C)
         g, f = rough[k], refined[k]
         if g[0] is None or f[0] is None:
             continue
-        cx, cy, dx, dy = t["cx"], t["cy"], t["dx"], t["dy"]
-        if (g[0], g[1]) != (cx, cy):  # |δ| < 1/2, so the nearest cell is the argmax
+        if (g[0], g[1]) != (t["cx"], t["cy"]):  # |δ| < 1/2, so the nearest cell is the argmax
             chk.fail("C07: rough peak of a Gaussian is not the cell nearest to its centre", {**small, "channel": [s, c]},
                      {"rough": g, "truth": t})
             continue
-        inside = p // 2 <= cx < w - p // 2 and p // 2 <= cy < h - p // 2  # the crop reads cells c-p//2 .. c+p//2
-        ox, oy = f[0] - g[0], f[1] - g[1]
+        bad, sigs, inside, e0, e1 = oracle_bump(g, f, t, p, h, w)
         chk.tag("gauss:inside" if inside else "gauss:border")
-        if inside:
-            bad = []
-            for o, d, nm in ((ox, dx, "x"), (oy, dy, "y")):
-                if d == 0 and abs(o) > 1e-5:
-                    bad.append(f"{nm}: symmetric about the cell but moved by {o}")
-                if d != 0 and not (o * d > 0):
-                    bad.append(f"{nm}: true offset {d}, refinement moved by {o}")
-            if bad:
-                chk.fail("C07 fails on a Gaussian bump: " + "; ".join(bad), {**small, "channel": [s, c], "truth": t},
-                         {"rough": g, "refined": f})
-        # measured only: does refinement reduce the error?
-        e0 = math.hypot(dx, dy)
-        e1 = math.hypot(f[0] - cx - dx, f[1] - cy - dy)
-        key = "test_error_reduced_inside" if inside else "test_error_reduced_border"
+        if bad:
+            one = {"S": 1, "C": 1, "h": h, "w": w, "den": case["den"], "maps": [case["maps"][k]], "thr": thr, "p": p,
+                   "dtype": dtype, "truth": [t]}
+            chk.fail("C07 fails on a Gaussian bump: " + "; ".join(bad), one, {"rough": g, "refined": f}, sigs)
+        # does refinement reduce the error?  interior: measured only (a test, no theorem); border: part of the oracle above
+        key = "test_error_reduced_inside" if inside else "border_error_reduced"
         st = chk.extra.setdefault(key, {"n": 0, "reduced_or_equal": 0, "worst_increase": 0.0})
         st["n"] += 1
         st["reduced_or_equal"] += int(e1 <= e0 + 1e-6)
         st["worst_increase"] = max(st["worst_increase"], e1 - e0)
+
+
+def oracle_bump(g, f, t, p, h, w):
+    """Property oracle for a sub-pixel bump with true centre (cx+dx, cy+dy), rough cell g = (cx,cy), refined point f.
+    Per axis: symmetric about the cell => unmoved; otherwise the move has the sign of the true offset.
+    A failure on an axis along which the p x p patch leaves the map (it then reads the zero padding) carries the signature
+    `refinement_patch_crosses_border` (finding F-C07b); when the patch crosses the border on any axis the estimate must also
+    not end up farther from the true centre than the rough cell (no overshoot), same signature.  A failure on an axis that
+    stays inside the map carries no signature: it is an ordinary violation."""
+    cx, cy, dx, dy = t["cx"], t["cy"], t["dx"], t["dy"]
+    m = p // 2  # the crop reads cells c-m .. c+m (odd p: exactly; even p: the four-cell means span the same range)
+    cross_x = not (m <= cx < w - m)
+    cross_y = not (m <= cy < h - m)
+    inside = not (cross_x or cross_y)
+    bad, sigs = [], []
+    for o, d, nm, cross in ((f[0] - g[0], dx, "x", cross_x), (f[1] - g[1], dy, "y", cross_y)):
+        why = None
+        if d == 0 and abs(o) > 1e-5:
+            why = f"{nm}: symmetric about the cell but moved by {o}"
+        if d != 0 and not (o * d > 0):
+            why = f"{nm}: true offset {d}, refinement moved by {o}"
+        if why:
+            bad.append(why + (" (patch crosses the border on this axis)" if cross else " (patch inside the map on this axis)"))
+            sigs.append("refinement_patch_crosses_border" if cross else None)
+    e0 = math.hypot(dx, dy)
+    e1 = math.hypot(f[0] - cx - dx, f[1] - cy - dy)
+    if not inside and e1 > e0 + 1e-6:
+        bad.append(f"overshoot: error to the true centre grew from {e0:.4f} to {e1:.4f} (patch crosses the border)")
+        sigs.append("refinement_patch_crosses_border")
+    # a known signature only applies when EVERY failing clause is explained by it
+    sig = ["refinement_patch_crosses_border"] if bad and all(x is not None for x in sigs) else []
+    return bad, sig, inside, e0, e1
 
 
 def witness_case(wt):
@@ -427,7 +450,7 @@ def witness_case(wt):
     for (x, y, v) in wt["cells"]:
         m[y][x] = v
     return {"S": 1, "C": 1, "h": wt["h"], "w": wt["w"], "den": 1, "maps": [m], "thr": wt["thr"],
-            "p": wt.get("patch", 0), "kind": "witness", "shape": "witness"}
+            "p": wt.get("patch", 0), "kind": "witness", "shape": "witness", **({"truth": [wt["truth"]]} if "truth" in wt else {})}
 
 
 def main(chk: Check):
@@ -452,6 +475,15 @@ def main(chk: Check):
                 chk.disagree("F-C07 witness: implementation is neither the as-is nor the repaired model", ent["witness"], str(got), str(m))
             chk.known_replay("F-C07", still_fails=bool(why) and "tied_max_separate_argmax" in sigs,
                              detail=f"impl={got} repaired-model={m['fix']}")
+        elif ent["signature"] == "refinement_patch_crosses_border":
+            g = I.rough(cms, case["thr"])[0]
+            f = I.full(cms, case["thr"], "integral", case["p"])[0]
+            bad, sigs, inside, e0, e1 = oracle_bump(g, f, ent["witness"]["truth"], case["p"], case["h"], case["w"])
+            m = parse_model(run_driver("C07.lean", [model_line(case, cms)])[0], 1)[0]
+            if m["pfix"] in (None, "inf") or f[0] is None or abs(f[0] - float(m["pfix"][0])) > 1e-4:
+                chk.disagree("F-C07b witness: implementation == model", ent["witness"], list(f), str(m["pfix"]))
+            chk.known_replay(ent["id"], still_fails=bool(bad) and ent["signature"] in sigs,
+                             detail=f"rough={g} refined={f} model={m['pfix']} {bad}")
         else:
             g = I.rough(cms, case["thr"])[0]
             full = I.full(cms, case["thr"], "integral", ent["witness"]["patch"])
@@ -533,8 +565,10 @@ if __name__ == "__main__":
             "unchanged tree kornia's crop_and_resize raises _LinAlgError for many shapes and returns NaN for large maps",
             "refinement bound proved for non-negative maps / positive threshold only (F-C06 applies here too); negative patches sampled "
             "every run with the oracle (excluded_region_cases) — search, not proof",
-            "toward-centre / symmetric-unmoved are theorems for patches inside the map; border patches (zero padding breaks the symmetry) "
-            "are measured only; 'refinement reduces the error' is measured only (test_error_reduced_*)",
+            "toward-centre / symmetric-unmoved are theorems for patches inside the map; the unrestricted statement is false "
+            "(global_refine_toward_centre_border_counterexample, F-C07b): patches crossing the border are sampled every run with the "
+            "oracle (direction per axis, symmetric-unmoved, no overshoot) and routed through the signature refinement_patch_crosses_border; "
+            "'refinement reduces the error' for interior patches is measured only (test_error_reduced_inside)",
         ],
     )
     run_check(chk, main, replay)
